@@ -445,9 +445,23 @@ def primed(cal: Callable_) -> bool:
 def script(cal: Callable_, shape: dict, ctxv: int = 0) -> str:
     """ctxv = 0: the call alone at file scope.  ctxv = 1 (device-method statements only): inside the main loop, directly
     after a PRIMING call of the same method that passes every parameter by keyword - what one statement binds must not
-    depend on the statement before it (an omitted argument takes its default, not the previous call's value)."""
+    depend on the statement before it (an omitted argument takes its default, not the previous call's value).
+    ctxv = 2: blanks around the `=` of keyword arguments.  ctxv = 3 (statement-form device methods with a list-valued parameter):
+    the list is passed by name and mutated in place after the call."""
     args = call_text(cal, shape, spaced=(ctxv == 2))
     lines = [cal.imp]
+    if ctxv == 3:
+        # list-valued arguments are passed BY NAME and the lists are changed in place after the call: what the call bound is
+        # what the variable held when the call ran
+        m = cal.cid.split(".")[1]
+        pre, post = [], []
+        for j, lit in enumerate(cal.lits):
+            if isinstance(lit.py, list) and re.search(r"(?<![\w.])" + re.escape(lit.src) + r"(?![\w.])", args):
+                args = args.replace(lit.src, f"lv{j}")
+                pre.append(f"lv{j} = {lit.src}")
+                post += [f"lv{j}.append(7)", f"lv{j}.remove({lit.py[0]!r})"]
+        lines += [cal.decl] + pre + [f"d.{m}({args})"] + post
+        return "\n".join(lines) + "\n"
     if ctxv == 1 and primed(cal):
         m = cal.cid.split(".")[1]
         full = ", ".join(f"{p.name}={cal.lits[i].src}" for i, p in enumerate(cal.params))
